@@ -627,8 +627,8 @@ def gen_cases(rng, tier):
     # -- whole collections through a real archive (7 zstd level-19 calls per batch: ~0.8 s each in this sandbox)
     # (zstd level 19 dominates: ~0.8 s per call alone, several times that when the machine is busy)
     if q:
-        plan = [(1, 50), (3, 2), (50, 50), (51, 50), (101, 50), (120, 50), (130, 50)]
-        plan += [(rng.randint(1, 12), 50) for _ in range(4)]
+        plan = [(1, 50), (3, 2), (50, 50), (51, 50), (101, 50), (130, 50)]
+        plan += [(rng.randint(1, 12), 50) for _ in range(3)]
     else:
         plan = [(1, 50), (2, 50), (3, 2), (5, 1), (15, 7), (49, 50), (50, 50), (51, 50), (60, 7), (100, 50), (101, 50),
                 (120, 50), (130, 50), (150, 50), (151, 50)]
